@@ -65,15 +65,15 @@ out.append("U.AddDigit | LZ | vL (U_Add_digit w a z) | (u(0) + (zu(1) as D))")
 out.append("U.DivDigit | LZ | vRL (U_Div_digit w a z) | (u(0) / (zu(1) as D))")
 out.append("U.RemDigit | LZ | vout VZ (U_Rem_digit w a z) | (u(0) % (zu(1) as D))")
 for S, p in (("U", "u"), ("I", "s")):
-    out.append("%s.Sum0 |  | vRL (%s_Sum dbg w n []) | Vec::<%s>::new().into_iter().sum::<%s>()" % (S, S, S, S))
+    out.append("%s.Sum0 | - | vRL (%s_Sum dbg w n []) | Vec::<%s>::new().into_iter().sum::<%s>()" % (S, S, S, S))
     out.append("%s.Sum1 | L | vRL (%s_Sum dbg w n [a]) | vec![%s(0)].into_iter().sum::<%s>()" % (S, S, p, S))
     out.append("%s.Sum3 | LLL | vRL (%s_Sum dbg w n [a; b; c]) | vec![%s(0), %s(1), %s(2)].into_iter().sum::<%s>()" % (S, S, p, p, p, S))
     out.append("%s.SumRef3 | LLL | vRL (%s_Sum dbg w n [a; b; c]) | vec![%s(0), %s(1), %s(2)].iter().sum::<%s>()" % (S, S, p, p, p, S))
-    out.append("%s.Product0 |  | vRL (%s_Product dbg w n []) | Vec::<%s>::new().into_iter().product::<%s>()" % (S, S, S, S))
+    out.append("%s.Product0 | - | vRL (%s_Product dbg w n []) | Vec::<%s>::new().into_iter().product::<%s>()" % (S, S, S, S))
     out.append("%s.Product1 | L | vRL (%s_Product dbg w n [a]) | vec![%s(0)].into_iter().product::<%s>()" % (S, S, p, S))
     out.append("%s.Product3 | LLL | vRL (%s_Product dbg w n [a; b; c]) | vec![%s(0), %s(1), %s(2)].into_iter().product::<%s>()" % (S, S, p, p, p, S))
     out.append("%s.ProductRef3 | LLL | vRL (%s_Product dbg w n [a; b; c]) | vec![%s(0), %s(1), %s(2)].iter().product::<%s>()" % (S, S, p, p, p, S))
-    out.append("%s.Default |  | vL (Default n) | <%s as Default>::default()" % (S, S))
+    out.append("%s.Default | - | vL (Default n) | <%s as Default>::default()" % (S, S))
     # FromStr agrees with from_str_radix(_, 10): compared on the Rust side (the parser itself is property C10)
     out.append("%s.FromStr | R | VB true | { let v = raw(0); let t = std::str::from_utf8(&v).unwrap(); "
                "<%s as FromStr>::from_str(t).map_err(|e| e.kind().clone()) == <%s>::from_str_radix(t, 10).map_err(|e| e.kind().clone()) }" % (S, S, S))
@@ -95,14 +95,14 @@ for pid, pat in want.items():
         s = ln.strip()
         if not s or s.startswith("@") or s.startswith("#"):
             continue
-        name = s.split("|")[0].strip()
+        name = s.split(" | ")[0].strip()
         if re.search(pat, name) and name not in seen:
             seen.add(name)
             c04.append(s)
 for ln in out:
     if ln.startswith("@"):
         continue
-    name = ln.split("|")[0].strip()
+    name = ln.split(" | ")[0].strip()
     if re.search(r"\.(Add|Sub|Mul|Div|Rem|Neg)\.(vv|v)$|\.(Shl|Shr)\.\w+\.vv$|Digit$", name):
         c04.append(ln)
 open(os.path.join(ROOT, "tools", "ops", "C04.ops"), "w").write("\n".join(c04) + "\n")
